@@ -131,10 +131,13 @@ func (b *bEnv) Eval(x ast.Expr) bVal {
 	case *ast.IndexExpr:
 		base := b.Eval(n.X)
 		idx := b.state().norm(b.Term(n.Index))
-		if !idx.IsConst() {
+		if _, isMap := base.(bOpaque); !idx.IsConst() && !isMap {
 			panic(verr("spec(B): symbolic index in %s", exprString(x)))
 		}
-		key := "[" + idx.Val.String() + "]"
+		key := ""
+		if idx.IsConst() {
+			key = "[" + idx.Val.String() + "]"
+		}
 		switch a := base.(type) {
 		case bSlice:
 			if a.nil_ {
@@ -143,6 +146,13 @@ func (b *bEnv) Eval(x ast.Expr) bVal {
 			return b.e.loadAt(b.state(), bPtr{obj: a.arr, path: "/" + key})
 		case *bStruct:
 			return b.e.field(b.state(), a, key)
+		case bOpaque:
+			// a map with scalar keys: the entry the execution knows (or an unconstrained, remembered one)
+			if mt, ok := a.typ.Underlying().(*types.Map); ok {
+				if v, _, found := b.e.mapLookup(b.state(), a, bScalar{idx}, mt.Elem()); found {
+					return v
+				}
+			}
 		}
 		panic(verr("spec(B): cannot index %s", describeVal(base)))
 	case *ast.CallExpr:
